@@ -614,6 +614,22 @@ static void build_file(Case &c, BFile &F, std::string &desc) {
 			}
 			S.recs.push_back(r);
 		}
+		if (!F.real && !bigidx && c.rare(50)) {
+			// steer the size of this Stream (optionally including its Stream Padding) to a multiple of the file info decoder's 8 KiB
+			// read-back window +-32 bytes, so that Stream Headers, Indexes and footers of non-last Streams land on both sides of
+			// the window edges (one more filler Block of the size that makes it fit)
+			const uint64_t T = 8192ull * (1 + c.u(3)) + 4 * (uint64_t)c.u(17) - 32 - (c.flag() ? 0 : std::min<uint64_t>(S.padding, 4096));
+			ix::Index base; for (auto &r : S.recs) if (base.append(r.unpadded, r.uncompressed) != ix::RS_OK) harness_bug("mode B: record not appendable");
+			const uint64_t have = base.streams[0].size();
+			for (unsigned e = 0; e <= 24 && T > have + 8 + e; e += 4) {
+				ix::Record r; r.unpadded = T - have - e; r.uncompressed = fill.below(100000); if (r.unpadded < 5 || (r.unpadded & 3)) continue;
+				ix::Index t2 = base; if (t2.append(r.unpadded, r.uncompressed) != ix::RS_OK) break;
+				if (t2.streams[0].size() != T) continue;
+				size_t at = F.bytes.size(), len = (size_t)r.unpadded; F.bytes.resize(at + len);
+				for (size_t q = 0; q < len; q += 8) { uint64_t v = fill.next() | 0x0101010101010101ull; memcpy(&F.bytes[at + q], &v, std::min<size_t>(8, len - q)); }
+				S.recs.push_back(r); count("stream_size_steered_to_8KiB_window_edge"); break;
+			}
+		}
 		ix::Index one; for (auto &r : S.recs) if (one.append(r.unpadded, r.uncompressed) != ix::RS_OK) harness_bug("mode B: record not appendable");
 		std::vector<uint8_t> ib = one.encode(); S.index_size = ib.size();
 		S.off_index = F.bytes.size(); F.bytes.insert(F.bytes.end(), ib.begin(), ib.end());
